@@ -2598,6 +2598,10 @@ sexp sexp_flush_output_op (sexp ctx, sexp self, sexp_sint_t n, sexp out) {
 
 #define INIT_STRING_BUFFER_SIZE 128
 
+/* room for the whole part of any double (309 digits) plus more */
+/* fraction digits than can influence the rounding of the result */
+#define SEXP_FLOAT_DIGITS_LEN 1100
+
 sexp sexp_read_string (sexp ctx, sexp in, int sentinel) {
 #if SEXP_USE_UTF8_STRINGS
   int len;
@@ -2820,14 +2824,24 @@ sexp sexp_read_float_tail (sexp ctx, sexp in, double whole, int negp) {
   int c, c2;
   sexp exponent=SEXP_VOID;
   long double val=0.0, scale=10, e=0.0;
+  /* the decimal digits of the whole and fractional parts, converted */
+  /* with strtod at the end so that the result is correctly rounded */
+  char digits[SEXP_FLOAT_DIGITS_LEN + 32];
+  int ndigits, nfrac=0, exactp=1;
   sexp_gc_var1(res);
   sexp_gc_preserve1(ctx, res);
+  ndigits = snprintf(digits, SEXP_FLOAT_DIGITS_LEN, "%.0f", whole);
   for (c=sexp_read_char(ctx, in); sexp_isdigit(c);
-       c=sexp_read_char(ctx, in), val*=10, scale*=10)
+       c=sexp_read_char(ctx, in), val*=10, scale*=10) {
     val += digit_value(c);
+    if (ndigits < SEXP_FLOAT_DIGITS_LEN) {
+      digits[ndigits++] = c;
+      nfrac++;
+    }
+  }
 #if SEXP_USE_PLACEHOLDER_DIGITS
   for (; c==SEXP_PLACEHOLDER_DIGIT;
-       c=sexp_read_char(ctx, in), val*=10, scale*=10)
+       c=sexp_read_char(ctx, in), val*=10, scale*=10, exactp=0)
     val += sexp_placeholder_digit_value(10);
 #endif
   val /= scale;
@@ -2861,7 +2875,13 @@ sexp sexp_read_float_tail (sexp ctx, sexp in, double whole, int negp) {
     }
 #endif
   }
-  if (e != 0.0)
+  if (exactp && whole >= 0 && ndigits < SEXP_FLOAT_DIGITS_LEN
+      && e == (long)e && fabsl(e) < 1000000) {
+    /* no decimal point in the text, so this doesn't depend on the locale */
+    snprintf(digits+ndigits, 32, "e%ld", (long)e - nfrac);
+    val = strtod(digits, NULL);
+    if (negp) val *= -1;
+  } else if (e != 0.0)
     val = fabsl(e) > 320 ? exp(log(val) + e*M_LN10) : val * pow(10, e);
 #if SEXP_USE_FLONUMS
   res = sexp_make_flonum(ctx, val);
